@@ -103,6 +103,9 @@ package engine
 //@   guard return in loop 5: err != nil
 //@   loop 5 invariant deltaInStore(e)
 //@   loop 5 atback e.options.totalFactLimit > 0 ==> factstore.fcount(e.store) <= e.options.totalFactLimit
+// C02: the rows an aggregating rule reduces are collected from ITS internal relation into buffers that are empty when
+// the collection starts (rows of an earlier aggregating rule never enter the groups of a later one).
+//@   guard call GetFacts in loop 8: len(substs) == 0 && len(inputFacts) == 0
 
 // The total limit handed to the rounds is the number of facts present at the start plus the created-fact limit.
 //@ func EvalStratifiedProgramWithStats(programInfo, strata, predToStratum, store, options)
